@@ -194,6 +194,8 @@ def g3_boundaries(full):
         ("g3:manycells", "def f():\n" + "".join("    c%d = 1\n" % i for i in range(260)) + "    def g():\n        return " + " + ".join("c%d" % i for i in range(260)) + "\n    return g\n", "exec"),
         ("g3:manyfrees_jump", "def f():\n" + "".join("    c%d = 1\n" % i for i in range(260)) +
          "    def g(x):\n        while x:\n            x = x + " + " + ".join("c%d" % i for i in range(260)) + "\n        return x\n    return g\n", "exec"),
+        ("g3:merged_code_consts", "def ratio(xs, ys):\n    return sum(x*x for x in xs) / sum(x*x for x in ys)\nf = (lambda: 1), (lambda: 1)\ng = [i for i in a], [i for i in a]\n", "exec"),
+        ("g3:dead_nested_after_return", "def live():\n    return 1\n    def dead():\n        return 2\n    class Dead:\n        pass\n", "exec"),
         ("g3:barry", "from __future__ import barry_as_FLUFL\nx = 1\ndef f(): return x\n", "exec"),
         ("g3:future_all", "from __future__ import division, absolute_import, with_statement, print_function, unicode_literals, generator_stop, annotations\ndef f(): pass\n", "exec"),
     ]
@@ -306,6 +308,11 @@ def corpus(tier, seed, want=("g1", "g2", "g3", "g4"), g4_limit="default"):
     if "g1" in want:   # the same sources compiled with `from __future__ import annotations` in effect (a compile() flag)
         g1 = [it for it in items if it[0].startswith("g1:")]
         units += compile_all(g1 if full else g1[::3], flag_sets=(_future_annotations_flag(),))
+    if "g3" in want and sys.version_info >= (3, 8):   # top-level await (compile() flag since 3.8; what `python -m asyncio` uses)
+        tla = [("g3:toplevel_await", "import asyncio\nx = await asyncio.sleep(0)\n", "exec"), ("g3:toplevel_async_with", "async with a as b:\n    pass\n", "exec"),
+               ("g3:toplevel_async_for", "async for i in a:\n    print(i)\n", "exec"), ("g3:toplevel_await_unused", "x = 1\ndef f(): return x\n", "exec"),
+               ("g3:toplevel_await_eval", "await x", "eval"), ("g3:toplevel_await_single", "await x", "single")]
+        units += compile_all(tla, flag_sets=(0x2000,))
     if "g4" in want:
         import warnings
         for fn in g4_stdlib_files((None if full else 24) if g4_limit == "default" else g4_limit, seed):
